@@ -10,16 +10,53 @@ TRANSLATORS = {k: (v["script"], v["gen"], v["chain"], set(v["pids"]))
 def translators_for(pid):
     return [k for k, v in TRANSLATORS.items() if pid in v[3]]
 
+import re
+def _deps(v):
+    """the NV modules a file requires, as paths relative to coq/ (only those whose source exists)"""
+    try: src = open(os.path.join(COQ, v)).read()
+    except OSError: return []
+    out = []
+    for m in re.finditer(r"From\s+NV\s+Require\s+(?:Import\s+|Export\s+)?(.*?)\.(?=\s)", src + "\n", re.S):
+        for name in m.group(1).split():
+            f = name.replace(".", "/") + ".v"
+            if os.path.exists(os.path.join(COQ, f)): out.append(f)
+    for m in re.finditer(r"Require\s+(?:Import\s+|Export\s+)?((?:NV\.\S+\s*)+)\.(?=\s)", src + "\n"):
+        for name in m.group(1).split():
+            f = name[3:].replace(".", "/") + ".v"
+            if os.path.exists(os.path.join(COQ, f)): out.append(f)
+    return out
+
 def _fresh(v):
+    """compiled, not older than its source, and not older than the compiled form of anything it requires (a file of another
+    chain may have been recompiled since: loading both would fail with "inconsistent assumptions")"""
     vo = os.path.join(COQ, v[:-2] + ".vo")
-    return os.path.exists(vo) and os.path.getmtime(vo) >= os.path.getmtime(os.path.join(COQ, v))
+    if not (os.path.exists(vo) and os.path.getmtime(vo) >= os.path.getmtime(os.path.join(COQ, v))): return False
+    t = os.path.getmtime(vo)
+    for d in _deps(v):
+        dvo = os.path.join(COQ, d[:-2] + ".vo")
+        if not os.path.exists(dvo) or os.path.getmtime(dvo) > t: return False
+    return True
+
+def _chain_of(v):
+    for k, t in TRANSLATORS.items():
+        if v in t[2]: return k
+    return None
 
 def regen_py2coq():
     return regen("py2coq")
 
-def regen(which, force=False):
+def regen(which, force=False, _seen=None):
     """-> (ok, message, info)"""
     script, genfile, CHAIN, _ = TRANSLATORS[which]
+    # chains whose files this chain requires come first (e.g. wiring -> mw, cliclient -> session, gemtext -> static)
+    _seen = (_seen or set()) | {which}
+    for v in CHAIN:
+        for d in _deps(v):
+            k = _chain_of(d)
+            if k and k not in _seen:
+                _seen.add(k)
+                ok, msg, _i = regen(k, force, _seen)
+                if not ok: return False, "(prerequisite chain %s) %s" % (k, msg), {}
     lock = open(os.path.join(VERIF, ".build.lock2"), "w")
     fcntl.flock(lock, fcntl.LOCK_EX)
     try:
@@ -44,6 +81,10 @@ def regen(which, force=False):
                 vo = os.path.join(COQ, v[:-2] + ".vo")
                 if os.path.exists(vo): os.unlink(vo)
                 rc = subprocess.run("timeout 600 coqc -Q . NV " + v, shell=True, cwd=COQ, capture_output=True, text=True)
+                if rc.returncode != 0 and "inconsistent assumptions" in (rc.stdout + rc.stderr) and not force:
+                    # a stale compiled file somewhere below: rebuild this chain and its prerequisites from their generated files
+                    fcntl.flock(lock, fcntl.LOCK_UN)
+                    return regen(which, True)
                 if rc.returncode != 0:
                     return False, "%s no longer checks against the definitions regenerated from the source:\n%s" % (v, (rc.stdout + rc.stderr)[-1500:]), info
         return True, "", info
